@@ -309,16 +309,18 @@ Definition mode_bits (m : N) : N := m.       (* Permissions from metadata keep t
 Definition new_non_existent : mfile :=
   {| content := []; existed := false; deleted := true; perm := None |}.
 
-(* get_or_load: the overlay entry, or the file from disk.  S_IFREG = 0o100000 *)
+(* a file as it is loaded from disk: meta.permissions() carries the file type bits, S_IFREG = 0o100000 *)
+Definition loaded_file (f : file) : mfile :=
+  {| content := split_lines (f_data f); existed := true; deleted := false; perm := Some (32768 + f_mode f) |}.
+
+(* get_or_load: the overlay entry, or the file from disk *)
 Definition get_or_load (fs : fsys) (ov : overlay) (k : bytes) : res (mfile * overlay) :=
   match ov_get k ov with
   | Some m => ROk (m, ov)
   | None =>
       if has_dotdot k then RErr EOutOfModel else
       match fs_read fs (normalize k) with
-      | inl f => let m := {| content := split_lines (f_data f); existed := true; deleted := false;
-                             perm := Some (32768 + f_mode f) |} in
-                 ROk (m, ov_set k m ov)
+      | inl f => ROk (loaded_file f, ov_set k (loaded_file f) ov)
       | inr NotFound => ROk (new_non_existent, ov_set k new_non_existent ov)
       | inr FsOther => RErr ELoadFile
       end
@@ -341,7 +343,14 @@ Definition to_fpatch (fp : pfilepatch) : fpatch :=
 
 Record status := {
   st_index : nat; st_fp : pfilepatch; st_target : bytes; st_final : bytes; st_report : freport;
-  st_patch : bytes }.
+  st_patch : bytes;
+  (* rename_undo: were the old and the new file deleted before the rename; permissions of the new file *)
+  st_rename_undo : option (bool * bool * option mode) }.
+
+Definition set_deleted (m : mfile) (d : bool) : mfile :=
+  {| content := content m; existed := existed m; deleted := d; perm := perm m |}.
+Definition set_deleted_perm (m : mfile) (d : bool) (p : option mode) : mfile :=
+  {| content := content m; existed := existed m; deleted := d; perm := p |}.
 
 Record astate := { a_applied : list status (* newest first *); a_files : overlay }.
 
@@ -376,23 +385,28 @@ Definition apply_one_file_patch (fs : fsys) (st : astate) (index : nat) (patch_n
     match pf_new fp with
     | None => RPanic
     | Some newname =>
+        let old_deleted := deleted file in
         let '(stay, tmp) := move_out file in
         let ov2 := ov_set target stay ov1 in
         dor l2 <- get_or_load fs ov2 newname;
         let '(newfile, ov3) := l2 in
+        let undo := (old_deleted, deleted newfile, perm newfile) in
         match move_in newfile tmp with
         | None =>
             (* refuse to overwrite: put the content back, nothing is recorded *)
             dor l3 <- get_or_load fs ov3 target;
             let '(tfile, ov4) := l3 in
-            let ov5 := match move_in tfile tmp with Some t => ov_set target t ov4 | None => ov4 end in
+            let ov5 := match move_in tfile tmp with
+                       | Some t => ov_set target (set_deleted t old_deleted) ov4
+                       | None => ov_set target (set_deleted tfile old_deleted) ov4
+                       end in
             ROk (false, {| a_applied := a_applied st; a_files := ov5 |})
         | Some nf =>
             dor r <- lift (apply_l1 (to_fpatch fp) nf d fuzz);
             let '(nf', rep) := r in
             ROk (negb (r_failed rep),
                  {| a_applied := {| st_index := index; st_fp := fp; st_target := target; st_final := newname;
-                                    st_report := rep; st_patch := patch_name |} :: a_applied st;
+                                    st_report := rep; st_patch := patch_name; st_rename_undo := Some undo |} :: a_applied st;
                     a_files := ov_set newname nf' ov3 |})
         end
     end
@@ -401,7 +415,7 @@ Definition apply_one_file_patch (fs : fsys) (st : astate) (index : nat) (patch_n
     let '(f', rep) := r in
     ROk (negb (r_failed rep),
          {| a_applied := {| st_index := index; st_fp := fp; st_target := target; st_final := target;
-                            st_report := rep; st_patch := patch_name |} :: a_applied st;
+                            st_report := rep; st_patch := patch_name; st_rename_undo := None |} :: a_applied st;
             a_files := ov_set target f' ov1 |}).
 
 (* ModifiedFiles::rollback: new overlay and the file to back up *)
@@ -417,7 +431,24 @@ Definition ov_rollback (ov : overlay) (s : status) : res (overlay * mfile) :=
         | None => RPanic
         | Some old => match move_in old tmp with
                       | None => RPanic                      (* assert!(ok) *)
-                      | Some o' => ROk (ov_set (st_target s) o' ov1, o')
+                      | Some o' =>
+                          match st_rename_undo s with
+                          | None => ROk (ov_set (st_target s) o' ov1, o')
+                          | Some (old_deleted, new_deleted, new_perm) =>
+                              let ov2 := ov_set (st_target s) (set_deleted o' old_deleted) ov1 in
+                              if bytes_eqb (st_final s) (st_target s)
+                              then ROk (ov2, set_deleted o' old_deleted)       (* renamed to its own name *)
+                              else
+                              match ov_get (st_final s) ov2 with
+                              | None => RPanic
+                              | Some nf =>
+                                  let ov3 := ov_set (st_final s) (set_deleted_perm nf new_deleted new_perm) ov2 in
+                                  match ov_get (st_target s) ov3 with
+                                  | Some t => ROk (ov3, t)
+                                  | None => RPanic
+                                  end
+                              end
+                          end
                       end
         end
       else ROk (ov_set (st_final s) f1 ov, f1)
